@@ -3,14 +3,16 @@
 Also hosts the case generators and the Python reference shared with C12 (same engine `tendril`)."""
 PROP = "C11"
 ENGINE = "tendril"
-LEAN_TARGETS = ["H5V.Props.C11"]
-AUDIT_IMPORTS = ["H5V.Props.C11"]
+LEAN_TARGETS = ["H5V.Props.C11", "H5V.Lemmas.TendrilUtf8"]
+AUDIT_IMPORTS = ["H5V.Props.C11", "H5V.Lemmas.TendrilUtf8"]
 THEOREMS = ["H5V.Props.C11." + t for t in [
     "C11_step_refines", "C11_run_refines", "C11_reachable_wf", "C11_independent",
     "C11_checked_pop_front", "C11_checked_pop_back", "C11_checked_subtendril", "C11_push_checked",
     "C11_format_valid", "C11_no_ub", "C11_no_spurious_panic",
     "laws_bytes", "laws_ascii", "laws_latin1",
-]]
+]] + ["H5V.Lemmas.Tendril.Utf8." + t for t in [
+    "laws_utf8", "C11_utf8_valid", "utf8_valid_append", "utf8_suffix_exact", "utf8_prefix_exact",
+    "utf8_subseq_exact", "utf8_encode_valid", "utf8_chars_cut", "whole0_eq", "validUtf8_iff"]]
 TRUSTED = [
     "Lean 4 kernel; axioms ⊆ {propext, Classical.choice, Quot.sound} (audited per run)",
     "hand-written model lean/H5V/Model/Tendril.lean of tendril/src/{tendril,buf32,fmt,futf,util}.rs, tied by the "
@@ -302,8 +304,8 @@ def oracle_bytes(line, out):
     fmt, atom, ops = split_line(line)
     if atom == "T":
         return None
-    if "ORACLE-MISMATCH" in out:
-        return "harness Vec<u8> oracle diverged: %s" % out[max(0, out.index("ORACLE-MISMATCH") - 40):][:160]
+    mismatch = "ORACLE-MISMATCH" in out
+    out = strip_annot(out)
     po = parse_out(out)
     if po is None:
         return "malformed output: %s" % out[:200]
@@ -313,6 +315,8 @@ def oracle_bytes(line, out):
     ref = reference(fmt, ops)
     for n, ((r, _ev, slots), (er, epool), op) in enumerate(zip(steps, ref, ops)):
         if r != er:
+            if fmt == "wtf8" and r == "ok" and er in ("err", "inv") and op.split(" ")[0] in ("from", "push", "slice", "pushs"):
+                return WTF8_DEFECT + "; the bytes after it are skipped): op #%d %r accepted" % (n, op)
             return "op #%d %r: result %s, an independent owned-string model says %s" % (n, op, r, er)
         for k in range(4):
             got = None if slots[k] is None else slots[k][2]
@@ -324,6 +328,8 @@ def oracle_bytes(line, out):
                     return "op #%d: inline tendril longer than 8 bytes" % n
                 if fmt in ("utf8", "ascii", "wtf8") and not valid(fmt, slots[k][2]):
                     return "op #%d %r: slot %d holds bytes invalid for %s: %r" % (n, op, k, fmt, slots[k][2])
+    if mismatch:
+        return "the harness-internal Vec<u8> oracle diverged although the Python reference agrees (harness bug?)"
     return None
 
 
@@ -494,6 +500,8 @@ EDGE_SEQS = [
     "ef bf bf", "ef bf", "f0 8f bf bf", "f0 90 80 80", "f0 90 80", "f0 90", "f0", "f3 bf bf bf", "f4 8f bf bf",
     "f4 90 80 80", "f5 80 80 80", "f7 bf bf bf", "f8 88 80 80 80", "fe", "ff", "e2 82 ac", "e2 82 7f", "e2 28 a1",
     "f0 9f 98 80", "f0 9f 98 7f", "f0 28 8c bc", "c3 28", "a0 a1",
+    # a complete character followed by a stray continuation byte (and bytes that a skipping validator would miss)
+    "c2 80 80", "c2 80 80 ff", "df bf bf", "e2 82 ac 80", "e2 82 ac 80 ff ff", "f0 9f 98 80 80", "ed a0 80 80",
 ]
 LEADS = ["ed a0 80", "ed a0 bd", "ed af bf"]
 TRAILS = ["ed b0 80", "ed b8 80", "ed bf bf"]
@@ -624,8 +632,30 @@ def gen_cases(tier, rng):
     return cases
 
 
+ANNOT = re.compile(r" ORACLE-MISMATCH\([^)]*\)")
+
+
+def strip_annot(out):
+    return ANNOT.sub("", out) if out else out
+
+
+def compare(line, impl, model):
+    # the harness-internal Vec<u8> oracle annotates the output; the Lean model is compared without it
+    return strip_annot(impl) == model
+
+
+WTF8_DEFECT = "WTF8::validate accepts ill-formed WTF-8 (stray continuation byte after a 2-/3-byte character"
+
+
 def oracle(line, out):
     return oracle_bytes(line, out)
+
+
+# finding ids the main session may put into known_findings.json (kind "known") for the defect above
+KNOWN_MATCHERS = {
+    "F22": lambda f: f.kind == "oracle" and (f.detail or "").startswith(WTF8_DEFECT),
+    "F-C11-WTF8-VALIDATE": lambda f: f.kind == "oracle" and (f.detail or "").startswith(WTF8_DEFECT),
+}
 
 
 def nontrivial(line, out):
